@@ -151,8 +151,25 @@ class Names:
         w = self.rng.choice(WORDS).capitalize()
         return self._uniq("%s%s%d" % (prefix, w, self.n))
 
+    DIRTY_POOLS = {
+        "names.keyword": ["class", "from", "import", "in", "is", "global", "pass", "def", "None", "lambda", "yield", "async", "await", "not", "True"],
+        "names.soft_keyword": ["match", "type", "case"],
+        "names.pydantic_attr": ["copy", "json", "dict", "schema", "construct", "validate", "model_fields", "model_config", "model_dump", "parse_obj", "fields"],
+        "names.leading_underscore": ["_private", "_Private2", "_camelCase", "_x", "_id"],
+        "names.builtin": ["id", "list", "str", "type_", "object", "print", "self", "cls"],
+        "names.method_locals": ["query", "variables", "response", "data", "kwargs", "operation_name"],
+        "names.underscore_digit": ["_1", "_2x", "_3_a"],
+        "names.dunder_like": ["typename__", "a__b", "x_"],
+    }
+
     def member(self, kind: str = "field") -> str:
         """field / argument / input-field / variable / alias names"""
+        for cls_name, pool in self.DIRTY_POOLS.items():
+            if cls_name in self.dirty and self.rng.random() < 0.3:
+                free = [p for p in pool if p not in self.used and p.lower() not in self.used]
+                if free:
+                    self.feats.add(cls_name)
+                    return self._uniq(self.rng.choice(free))
         self.n += 1
         n = self.n
         a, b = self.rng.choice(WORDS), self.rng.choice(WORDS)
@@ -175,7 +192,19 @@ class Names:
         self.feats.add("names.pascal")
         return self._uniq("%s%s%d" % (a.capitalize(), b.capitalize(), n))
 
+    ENUM_DIRTY = {
+        "enum.keyword_value": ["class", "from", "None", "import", "pass", "in"],
+        "enum.reserved_value": ["mro", "name", "value", "_ignore_", "_order_", "_missing_", "_generate_next_value_"],
+        "enum.lowercase_value": ["red", "camelCase", "snake_case"],
+    }
+
     def enum_value(self) -> str:
+        for cls_name, pool in self.ENUM_DIRTY.items():
+            if cls_name in self.dirty and self.rng.random() < 0.4:
+                free = [p for p in pool if p not in self.used and p.lower() not in self.used]
+                if free:
+                    self.feats.add(cls_name)
+                    return self._uniq(self.rng.choice(free))
         self.n += 1
         a = self.rng.choice(WORDS).upper()
         style = self.rng.randrange(4)
